@@ -19,7 +19,7 @@ CONSTANTS
   Serialized = FALSE
   DirectAPI = FALSE
   MaxLen = 200
-  Wanted = {"refused", "redial", "self", "dialfail", "noop", "absent", "refill", "connected"}
+  Wanted = {"refused", "redial", "self", "dialfail", "noop", "absent", "refill", "connected", "x_inSetConnected", "x_inOrder", "x_view", "x_prot"}
 CHECK_DEADLOCK FALSE
 VIEW state
 ACTION_CONSTRAINT CoarseSchedule
